@@ -35,6 +35,23 @@ EXAMPLES = {"quick": 450, "thorough": 9000}
 
 
 def core(ctx):
+    for t in ("xor", "xnor", "and"):
+        for k in (5, 6, 7, 9):
+            # wide gates: compare the gate with a chain of 2-input gates of the same family
+            nodes = [[f"i{j}", "input", [], False] for j in range(k)]
+            nodes.append(["g", t, [f"i{j}" for j in range(k)], True])
+            base = {"xor": "xor", "xnor": "xor", "and": "and"}[t]
+            prev = "i0"
+            for j in range(1, k):
+                nodes.append([f"h{j}", base, [prev, f"i{j}"], False])
+                prev = f"h{j}"
+            nodes.append(["ref", "not" if t == "xnor" else "buf", [prev], True])
+            nodes.append(["diff", "xor", ["g", "ref"], True])
+            spec = {"name": "c", "nodes": nodes, "bbtypes": [], "insts": []}
+            yield {"kind": "count", "spec": spec, "assume": [["diff", True]]}
+            yield {"kind": "count", "spec": spec, "assume": [["g", True], ["i0", True], ["i1", False]]}
+            yield {"kind": "prob", "spec": spec, "node": "diff"}
+            yield {"kind": "approx", "spec": spec, "assume": [["diff", True]]}
     for t in S.NARY:
         for k in (1, 2, 3):
             nodes = [[f"i{j}", "input", [], False] for j in range(k)]
@@ -79,7 +96,7 @@ def _case(draw, ctx):
     else:
         big = draw(st.booleans())
         spec = draw(S.circuit_spec(min_inputs=0, max_inputs=6 if big else 4, min_gates=1,
-                                   max_gates=12 if big else 6, max_fanin=4,
+                                   max_gates=12 if big else 6, max_fanin=7,
                                    max_insts=draw(st.sampled_from([0, 0, 1, 2]))))
     names = [x[0] for x in spec["nodes"]]
     pins = []
